@@ -409,6 +409,7 @@ func (g *Gen) check(prop, tier, outDir string, timeoutMS, seed, par int, verbose
 	}
 	lem := g.lemmaObligations(prop)
 	obls = append(obls, lem...)
+	obls = append(obls, g.writersObligations(prop)...)
 	if len(res.ToolErrors) > 0 {
 		return res
 	}
